@@ -267,8 +267,6 @@ def g_signal(rng, cmd=None, descs=None, pf=None, canonical=False):
     ptr = bytes([0xFF] * pf) if rng.random() < 0.7 else g_bytes(rng, pf)
     has_time = cmd[0] == 1 or (cmd[0] == 2 and cmd[2] and cmd[2][0][1][0] == 1)
     adj = g_pts(rng) if (has_time or rng.random() < 0.3) else 0
-    if canonical and cmd[0] == 0:
-        adj = 0    # the decoder drops pts_adjustment of a splice_null (finding C09-b): not re-encodable
     tier = rng.choice([0xFFF, 0, 1, 0xABC, rng.randrange(4096)])
     stuff = b"" if canonical or rng.random() < 0.8 else g_bytes(rng, rng.randrange(1, 6))
     legacy = 0 if canonical else int(rng.random() < 0.15)
